@@ -15,7 +15,9 @@ from .common import K, Mode
 EXPLANATION = ('Sign, ordering and monotonicity assertions on the terms obtained by executing the real solver code symbolically: '
                'positivity of density / pressure / energy on every path, compressive jumps (with the pre-shock state tied to the '
                'ambient profile), monotone dependence inside fans (sign of the exact symbolic derivative), values of a transition '
-               'cell between the two neighbouring states, ordering of wave speeds.')
+               'cell between the two neighbouring states, ordering of wave speeds.  Riemann: the pattern the driver selects is the '
+               'admissible one (sign of the increasing star function at the data pressures, root-free), and the assembled fields at a '
+               'point inside a fan (public solver, unequal gammas) are positive and on the expansion side of the outer state.')
 BOUNDS = ['geometry enumerated; gamma sliced for Riemann/Sedov/Mader; one evaluation point']
 OUTSIDE = ['Su-Olson ordering/monotonicity and radiative-shock positivity (values of numerical integrals)',
            'Guderley (numerical ODE solution); Sedov interior profile (numerical inversion)']
